@@ -297,6 +297,10 @@ func judgeBatch(cs *BatchCase, o *BatchObs) []scen.Finding {
 					}
 					lastItem = e.Item
 				}
+				if (e.Kind == "exec-start" && e.Attempt > 1 || e.Kind == "fallback") && e.Item >= 0 && e.Item < lastItem {
+					add("C08", "sequential-item-not-finished-first", "sequential batch: %s of item %d (attempt %d) came after item %d had already been started — with concurrency 0 an item is finished, retries and fallback included, before the next one starts", e.Kind, e.Item, e.Attempt, lastItem)
+					break
+				}
 			}
 		}
 		firstFail := -1 // logical time of the first failed attempt / fallback (stop mode: the limit is judged before it only)
